@@ -42,14 +42,17 @@ class RecCtx(_ssl.SSLContext):
         self.calls.append(("set_ciphers", c))
 
     def wrap_socket(self, sock, **kw):
+        if REC.get("preempt") is not None:
+            REC["preempt"]()  # a thread may be descheduled on entry to wrap_socket (any bytecode boundary is a preemption point)
         self.calls.append(("wrap_socket", kw.get("server_hostname")))
-        REC["wraps"].append(dict(ctx=self, server_hostname=kw.get("server_hostname"), sent_before=bytes(sock.sent) if not isinstance(sock.sent, bytes) else sock.sent,
-                                 check_hostname=self.check_hostname, verify_mode=self.verify_mode, kw=kw))
+        REC["wraps"].append(dict(ctx=self, who=REC.get("who", lambda: None)(), server_hostname=kw.get("server_hostname"), sent_before=bytes(sock.sent) if not isinstance(sock.sent, bytes) else sock.sent,
+                                 check_hostname=self.check_hostname, verify_mode=self.verify_mode, kw=kw,
+                                 calls_at_wrap=list(self.calls)))
         sock.tls = True
         return sock
 
 
-REC = {"wraps": [], "contexts": []}
+REC = {"wraps": [], "contexts": [], "preempt": None}
 
 
 class FakeSSLModule:
@@ -309,7 +312,142 @@ def s_shared(kind):
     cover("shared")
 
 
+PAIR_CFGS = {
+    "default": {}, "nohost": {"check_hostname": False}, "hostTrue": {"check_hostname": True}, "certnone": {"cert_reqs": _ssl.CERT_NONE},
+    "optional": {"cert_reqs": _ssl.CERT_OPTIONAL}, "cafile": {"ca_certs": "/ca/file.pem"}, "capath": {"ca_cert_path": "/ca/dir"},
+    "althost": {"server_hostname": "alt.example"}, "ciphers": {"ciphers": "HIGH"}, "certfile": {"certfile": "/client.pem"},
+    "tls12": {"ssl_version": _ssl.PROTOCOL_TLSv1_2},
+}
+
+
+def _expect(name, host):
+    o = PAIR_CFGS[name]
+    cr = o.get("cert_reqs", _ssl.CERT_REQUIRED)
+    exp = dict(verify_mode=cr, check_hostname=False if cr == _ssl.CERT_NONE else o.get("check_hostname", True),
+               server_hostname=o.get("server_hostname", host))
+    if cr == _ssl.CERT_NONE:
+        exp["loads"] = []
+    elif "ca_certs" in o or "ca_cert_path" in o:
+        exp["loads"] = [("load_verify_locations", o.get("ca_certs"), o.get("ca_cert_path"))]
+    else:
+        exp["loads"] = [("load_default_certs", _ssl.Purpose.SERVER_AUTH)]
+    exp["others"] = {"certfile": [("load_cert_chain", "/client.pem", None, None)], "ciphers": [("set_ciphers", "HIGH")]}.get(name, [])
+    return exp
+
+
+def _check_wrap(w, name, host, what, **info):
+    exp = _expect(name, host)
+    sx.require(w is not None, "%s: connection is wrapped in TLS" % what, cfg=name, **info)
+    if w is None:
+        return
+    sx.require(w["verify_mode"] == exp["verify_mode"] and w["check_hostname"] == exp["check_hostname"],
+               "%s: verification settings handed to OpenSSL are those of this connection's own options" % what, cfg=name,
+               got="%s/%s" % (w["verify_mode"], w["check_hostname"]), exp="%s/%s" % (exp["verify_mode"], exp["check_hostname"]), **info)
+    sx.require(w["server_hostname"] == exp["server_hostname"], "%s: server_hostname is this connection's own host" % what, cfg=name,
+               got=str(w["server_hostname"]), **info)
+    # what was configured on the context up to THIS wrap (a context may legitimately be reused for identical settings)
+    calls = w["calls_at_wrap"]
+    loads = sorted(set(c for c in calls if c[0] in ("load_verify_locations", "load_default_certs")), key=str)
+    sx.require(loads == exp["loads"], "%s: trust material is what this connection's options say" % what, cfg=name, got=str(loads), **info)
+    others = sorted(set(c for c in calls if c[0] in ("load_cert_chain", "set_ciphers")), key=str)
+    sx.require(others == exp["others"], "%s: client certificate / ciphers only when this connection asked for them" % what, cfg=name,
+               got=str(others), **info)
+
+
+def _connect(websocket, host, name):
+    ws = websocket.create_connection("wss://%s/chat" % host, timeout=5, sslopt=dict(PAIR_CFGS[name]))
+    ws.shutdown()
+
+
+def s_pair(a, b):
+    """two connections one after the other in the same process, every ordered pair of option sets: each is verified according
+    to ITS OWN options (nothing persists from the earlier one, nothing is lost)"""
+    quiet_logging()
+    import os as real_os
+    import websocket
+    import websocket._http as H
+    REC["wraps"].clear()
+    REC["contexts"].clear()
+    k = Kernel(step_budget=6000)
+    net = Net(k, [{}])
+    simnet.install(k, net)
+    real_ssl, real_os_in_h = H.ssl, H.os
+    H.ssl = FakeSSLModule()
+    H.os = FakeOsMod(real_os, {}, {"/ca/file.pem"}, {"/ca/dir"})
+    try:
+        _connect(websocket, "first.example", a)
+        _connect(websocket, "second.example", b)
+    finally:
+        H.ssl, H.os = real_ssl, real_os_in_h
+        k.shutdown()
+        simnet.uninstall()
+    wraps = REC["wraps"]
+    sx.require(len(wraps) == 2, "each wss connection is wrapped exactly once", got=len(wraps), a=a, b=b)
+    if len(wraps) != 2:
+        return
+    _check_wrap(wraps[0], a, "first.example", "first of two connections", a=a, b=b)
+    _check_wrap(wraps[1], b, "second.example", "second of two connections", a=a, b=b)
+    cover("pair")
+
+
+def s_threads(a, b):
+    """two threads connect at the same time with different options; either may be descheduled on entry to wrap_socket (solver
+    choice): each connection is still verified according to its own options"""
+    quiet_logging()
+    import os as real_os
+    import websocket
+    import websocket._http as H
+    REC["wraps"].clear()
+    REC["contexts"].clear()
+    k = Kernel(step_budget=8000)
+    net = Net(k, [{}])
+    simnet.install(k, net)
+    real_ssl, real_os_in_h = H.ssl, H.os
+    H.ssl = FakeSSLModule()
+    H.os = FakeOsMod(real_os, {}, {"/ca/file.pem"}, {"/ca/dir"})
+    pre = {"A": bool(sx.choice("preemptA", 2)), "B": bool(sx.choice("preemptB", 2))}
+    first = sx.choice("first", 2)
+
+    def preempt():
+        me = k.cur.name
+        if pre.get(me):
+            pre[me] = False
+            k.yield_now()
+    REC["preempt"] = preempt
+    REC["who"] = lambda: k.cur.name
+    k.main.name = "B"
+    errs = []
+
+    def run_a():
+        try:
+            _connect(websocket, "first.example", a)
+        except Exception as e:
+            errs.append(e)
+    try:
+        pa = k.spawn(run_a, "A")
+        if first == 0:
+            k.yield_now()
+        _connect(websocket, "second.example", b)
+        k.block(lambda: pa.done, None)
+    finally:
+        REC["preempt"] = None
+        REC["who"] = lambda: None
+        H.ssl, H.os = real_ssl, real_os_in_h
+        k.shutdown()
+        simnet.uninstall()
+    sx.require(not errs, "connection in the second thread failed: %s" % (type(errs[0]).__name__ if errs else ""), a=a, b=b)
+    wa = [w for w in REC["wraps"] if w["who"] == "A"]
+    wb = [w for w in REC["wraps"] if w["who"] == "B"]
+    sx.require(len(wa) == 1 and len(wb) == 1, "each wss connection is wrapped exactly once", got="%d/%d" % (len(wa), len(wb)), a=a, b=b)
+    if len(wa) != 1 or len(wb) != 1:
+        return
+    _check_wrap(wa[0], a, "first.example", "thread A", a=a, b=b)
+    _check_wrap(wb[0], b, "second.example", "thread B", a=a, b=b)
+    cover("threads")
+
+
 def obligations(tier):
+    thr = list(PAIR_CFGS) if tier == "thorough" else ["default", "nohost", "certnone", "althost", "ciphers", "cafile"]
     return [
         Obligation("S-cfg", s_cfg, [dict(secure=s, proxied=p) for s in (False, True) for p in (False, True)],
                    bounds="full product: cert_reqs {absent, NONE, OPTIONAL, REQUIRED} x check_hostname {absent, True, False} x ca_certs x ca_cert_path x "
@@ -324,4 +462,14 @@ def obligations(tier):
         Obligation("S-seq", s_seq, [dict(first=f) for f in ("certnone", "nohost", "althost", "cafile", "optional", "context")],
                    bounds="a relaxing connection (6 kinds) followed by a default connection in the same process", must_cover=["seq"], step_budget=200000,
                    kernel=["_http._ssl_socket", "_wrap_sni_socket"]),
+        Obligation("S-pair", s_pair, [dict(a=a, b=b) for a in PAIR_CFGS for b in PAIR_CFGS],
+                   bounds="every ordered pair of 11 option sets (default, check_hostname False/True, CERT_NONE, CERT_OPTIONAL, ca_certs, ca_cert_path, "
+                          "server_hostname, ciphers, certfile, ssl_version) used for two successive connections to different hosts in one process",
+                   must_cover=["pair"], step_budget=200000, kernel=["_http._ssl_socket", "_wrap_sni_socket"]),
+        Obligation("S-threads", s_threads, [dict(a=a, b=b) for a in thr for b in thr if a != b], required=False,
+                   bounds="two threads connecting concurrently with different option sets (%d ordered pairs); which thread starts first and whether "
+                          "each is descheduled on entry to wrap_socket are solver choices (8 schedules per pair); switches otherwise only at "
+                          "blocking operations" % (len(thr) * (len(thr) - 1)),
+                   outside=["preemption at other bytecode boundaries"],
+                   must_cover=["threads"], step_budget=200000, kernel=["_http._ssl_socket", "_wrap_sni_socket"]),
     ]
